@@ -175,6 +175,34 @@ def run(ck):
         if n32 != want or (want > 0 and r["exit"] != "1"):     # other errors (an illegal dictionary key) may be reported besides
             ck.violation("reference-files", "cycle-missed-in-reference-file" if n32 < want else "report-differs", text, "%d E032 report(s)%s" % (want, ", exit 1" if want else ""), "%d E032 report(s), exit %s" % (n32, r["exit"]),
                          signature={"role": "reference"})
+    # 1h. enums that (wrongly) also name an underlying type still contain their enumerators' fields: the E032 list is the same
+    import re as _re
+    withE = [(t, mo) for (t, mo) in cyc + acy if "unchecked enum" in t]
+    pick_u = rng.sample(withE, min(len(withE), 400 if ck.tier == "quick" else 4000))
+    ucases = []
+    for t, mo in pick_u:
+        names = _re.findall(r"unchecked enum (T\d+) \{", t)
+        chosen = [x for x in names if rng.random() < 0.6] or [rng.choice(names)]
+        t2, pre = t, ""
+        for x in chosen:
+            u = rng.choice(["uint8", "int32", "varint32", "uint16", "U9", "::M::U9"])
+            if "U9" in u and "typealias U9" not in pre:
+                pre = "typealias U9 = %s\n" % rng.choice(["uint8", "varint62", "int16"])
+            form = rng.choice(["unchecked enum %s : %s {", "enum %s : %s {", "unchecked enum %s: %s {"])
+            t2 = t2.replace("unchecked enum %s {" % x, form % (x, u))
+        ucases.append((t2 + pre, mo))
+    o4 = core.run_impl("diags", ["diags - " + hx(t) for t, _ in ucases], chunk=500, timeout=120)
+    ck.stream("enums-with-underlying-type", description="cyclic and acyclic containment programs of the first stream whose enums (some or all) also name an underlying type, directly or through an alias "
+              "(an error of its own, reported only when no cycle is); observable: the E032 list, which must be that of the program without the underlying types")
+    for (text, mo), oo in zip(ucases, o4):
+        ck.count("enums-with-underlying-type", text, kind="cyclic" if mo != "none" else "acyclic")
+        dl = parse_diags(oo)
+        if dl is None:
+            ck.violation("enums-with-underlying-type", "crash", text, mo, oo, signature={"observable": oo.split(" ")[0]})
+            continue
+        exp, obs = expected_reports(mo), observed_reports(dl)
+        if exp != obs:
+            ck.violation("enums-with-underlying-type", "cycle-missed" if len(obs) < len(exp) else ("acyclic-flagged" if not exp else "report-differs"), text, repr(exp), repr(obs), signature={"enum": "with underlying type"})
     # 2. alias graphs: each alias is a primitive, another alias, or an anonymous type over aliases
     forms = [("int32", []), ] 
     def alias_forms(n):
